@@ -135,6 +135,26 @@ func (g *G) IgnoreFile() []byte {
 		j := g.Int(0, i, "shuffle")
 		lines[i], lines[j] = lines[j], lines[i]
 	}
+	if g.Chance(8, "manyEntries") {
+		// a long list (more than 4 KiB, sometimes more than 8 KiB): the entries that matter are at the top, in the middle or at the end
+		n := g.Pick2([]int{400, 420, 800}, "fillers")
+		filler := make([]string, 0, n)
+		for i := 0; i < n; i++ {
+			if i%2 == 0 {
+				filler = append(filler, fmt.Sprintf("cache%04d/", i))
+			} else {
+				filler = append(filler, fmt.Sprintf("*.gen%04d", i))
+			}
+		}
+		switch g.Int(0, 2, "fillerPlace") {
+		case 0:
+			lines = append(lines, filler...)
+		case 1:
+			lines = append(filler, lines...)
+		default:
+			lines = append(append(append([]string{}, filler[:n/2]...), lines...), filler[n/2:]...)
+		}
+	}
 	eol := "\n"
 	if g.Chance(25, "crlf") {
 		eol = "\r\n" // files written on another platform
